@@ -1606,3 +1606,138 @@ theorem C08.moreau_l2sq_coded (σ x : K) (hσ : 0 < σ) :
   ring
 
 end moreau_coded
+
+/-! ### Evaluability and round trip of the coded conjugation -/
+section final
+variable {E : Type} [NormedAddCommGroup E] [InnerProductSpace ℝ E]
+
+/-- Merging constructors keep evaluability. -/
+theorem C08.mk_evaluable (a : ℝ) (f : Fn E ℝ) :
+    (Fn.mkLscal a f).evaluable = f.evaluable ∧ (Fn.mkRscal f a).evaluable = f.evaluable ∧
+      (Fn.mulScalar f a).evaluable = f.evaluable := by
+  have h1 : (Fn.mkLscal a f).evaluable = f.evaluable := by cases f <;> simp [Fn.mkLscal, Fn.evaluable]
+  have h2 : (Fn.mkRscal f a).evaluable = f.evaluable := by cases f <;> simp [Fn.mkRscal, Fn.evaluable]
+  refine ⟨h1, h2, ?_⟩
+  unfold Fn.mulScalar
+  cases f.isLinear <;> simp [h1, h2]
+
+theorem C08.translated_evaluable (o : VecOps E ℝ) (g : Fn E ℝ) (u : E) :
+    (Fn.translated o g u).evaluable = g.evaluable := by
+  cases g <;> simp [Fn.translated, Fn.evaluable]
+
+/-- **The coded conjugate of every expression of the fragment `Reg` can be evaluated** (all
+depths): `Fn.conj` never answers with the default wrapper `FunctionalDefaultConvexConjugate`
+(whose `_call` does not exist) nor with an `InfimalConvolution` / `MoreauEnvelope` there; the
+driver prints `noeval` exactly when `evaluable` is false, and the harness compares this with
+the live `f.convex_conj(y)` (value vs NotImplementedError). -/
+theorem C08.conj_evaluable (o : VecOps E ℝ) (t t' : Fn E ℝ) (hreg : Reg o t)
+    (h : t.conj o = some t') : t'.evaluable = true := by
+  induction t generalizing t' with
+  | coord b => cases b <;> (simp [Fn.conj] at h; subst h; simp [Fn.evaluable])
+  | l2sq => simp [Fn.conj] at h; subst h; simp [Fn.evaluable]
+  | const c => simp [Fn.conj] at h; subst h; simp [Fn.evaluable]
+  | indZero c => simp [Fn.conj] at h; subst h; simp [Fn.evaluable]
+  | lin b c => simp [Fn.conj, Fn.translated] at h; subst h; simp [Fn.evaluable]
+  | quad A At Ainv AinvT hasB b c =>
+      by_cases hb : hasB = true <;> (simp [Fn.conj, hb] at h; subst h; simp [Fn.evaluable])
+  | lscal s f ih =>
+      by_cases hs : s ≤ 0
+      · simp [Fn.conj, hs] at h
+      · cases hfc : f.conj o with
+        | none => simp [Fn.conj, hs, hfc] at h
+        | some g =>
+            have := ih g hreg hfc
+            simp only [Fn.conj, hs, if_false, hfc, Option.some.injEq] at h
+            subst h
+            rw [(C08.mk_evaluable _ _).2.2, (C08.mk_evaluable _ _).1]; exact this
+  | rscal f s ih =>
+      cases hfc : f.conj o with
+      | none => simp [Fn.conj, hfc] at h
+      | some g =>
+          have := ih g hreg.2 hfc
+          simp only [Fn.conj, hfc, Option.some.injEq] at h
+          subst h
+          rw [(C08.mk_evaluable _ _).2.2]; exact this
+  | rvec f v vinv ih =>
+      cases hfc : f.conj o with
+      | none => simp [Fn.conj, hfc] at h
+      | some g =>
+          have := ih g hreg.2.2.2 hfc
+          simp [Fn.conj, hfc] at h; subst h; simpa [Fn.evaluable] using this
+  | ssum f c ih =>
+      cases hfc : f.conj o with
+      | none => simp [Fn.conj, hfc] at h
+      | some g =>
+          have := ih g hreg hfc
+          simp [Fn.conj, hfc] at h; subst h; simpa [Fn.evaluable] using this
+  | trans f t ih =>
+      cases hfc : f.conj o with
+      | none => simp [Fn.conj, hfc] at h
+      | some g =>
+          have := ih g hreg hfc
+          simp [Fn.conj, hfc] at h; subst h; simpa [Fn.evaluable] using this
+  | qp f a hasU u c ih =>
+      obtain ⟨ha, hr⟩ := hreg
+      subst ha
+      cases hfc : f.conj o with
+      | none => simp [Fn.conj, hfc] at h
+      | some g =>
+          have := ih g hr hfc
+          by_cases hc : c = 0 <;>
+            (simp [Fn.conj, hfc, hc] at h; subst h
+             simpa [Fn.evaluable, C08.translated_evaluable o g u] using this)
+  | breg f p q ih =>
+      cases hfc : f.conj o with
+      | none => simp [Fn.conj, hfc] at h
+      | some g =>
+          have := ih g hreg hfc
+          by_cases hc : -(f.value o p) + o.inner q p = 0
+          · simp only [Fn.conj, hfc, hc, if_true] at h
+            simp at h; subst h
+            simpa [Fn.evaluable, C08.translated_evaluable o g _] using this
+          · simp only [Fn.conj, hfc, hc, if_false] at h
+            simp at h; subst h
+            simpa [Fn.evaluable, C08.translated_evaluable o g _] using this
+  | sum f g _ _ => exact hreg.elim
+  | prod f g _ _ => exact hreg.elim
+  | quot f g _ _ => exact hreg.elim
+  | comp f op dAdj opLin _ => exact hreg.elim
+  | infconv f g _ _ => exact hreg.elim
+  | menv f P σ _ => exact hreg.elim
+  | dconj f _ => exact hreg.elim
+
+
+/-- **Round trip of the coded conjugation on the built-in pairs** (`f** = f`, every real
+inner-product space, every point): for L1, the L∞-ball indicator, Constant and IndicatorZero
+`Fn.conj (Fn.conj t)` IS `t` again (the code returns the partner class); for L2NormSquared the
+biconjugate is the merged scaling `((1/4)·(1/4)·‖·‖²)(4 ·)` and takes the same value as `‖·‖²`
+at every point. -/
+theorem C08.biconj_leaves (μ : E → E → E) (cv : Builtin ℝ → E → ℝ) (cd : Builtin ℝ → E → Bool)
+    (cg : Builtin ℝ → E → E) (c : ℝ) :
+    (∀ t : Fn E ℝ, t = .coord .l1 ∨ t = .coord .indLinf →
+      (t.conj (eOps μ cv cd cg)).bind (Fn.conj (eOps μ cv cd cg)) = some t) ∧
+    ((Fn.const c : Fn E ℝ).conj (eOps μ cv cd cg)).bind (Fn.conj (eOps μ cv cd cg))
+      = some (.const (- -c)) ∧
+    ((Fn.indZero c : Fn E ℝ).conj (eOps μ cv cd cg)).bind (Fn.conj (eOps μ cv cd cg))
+      = some (.indZero (- -c)) ∧
+    ∃ t'', ((Fn.l2sq : Fn E ℝ).conj (eOps μ cv cd cg)).bind (Fn.conj (eOps μ cv cd cg)) = some t'' ∧
+      ∀ x, t''.value (eOps μ cv cd cg) x = (Fn.l2sq : Fn E ℝ).value (eOps μ cv cd cg) x ∧
+        t''.dom (eOps μ cv cd cg) x = true := by
+  refine ⟨?_, rfl, rfl, ?_⟩
+  · rintro t (rfl | rfl) <;> rfl
+  · have hq : ¬ ((1 : ℝ) / (two * two) ≤ 0) := by unfold two; norm_num
+    have h2 : (two : ℝ) ≠ 0 := by unfold two; norm_num
+    refine ⟨(Fn.lscal ((two : ℝ)⁻¹ * two⁻¹ * (two⁻¹ * two⁻¹)) Fn.l2sq).rscal (two * two), ?_, ?_⟩
+    · simp [Fn.conj, Fn.mulScalar, Fn.mkLscal, Fn.mkRscal, Fn.isLinear, h2]
+    intro x
+    refine ⟨?_, rfl⟩
+    simp only [Fn.value, eOps, two, real_inner_smul_left, real_inner_smul_right]
+    norm_num
+    ring
+
+/-- Non-vacuity: the fragment contains `2·Huber_{1/2}(· − t)` on the weighted example space and
+its coded conjugate is evaluable. -/
+example : ∀ t', (Fn.lscal 2 (.trans (.coord (.huber (1 / 2))) (WSp.of ![1, -1])) :
+      Fn (WSp ![1 / 4, 1 / 4]) ℝ).conj (wOps ![1 / 4, 1 / 4]) = some t' → t'.evaluable = true :=
+  fun t' h => C08.conj_evaluable _ _ t' (by show (0 : ℝ) < 1 / 2; norm_num) h
+end final
